@@ -242,3 +242,82 @@ def late_binding_obligations(ctx, rule: str, modules: list[str], what: str) -> N
     ctx.ob(rule, modules[0], f"{what}: no closure created in a loop captures that loop's "
                              f"variables by reference ({seen} loops in {len(modules)} modules)",
            True, facts={"loops": seen, "modules": modules})
+
+
+# --------------------------------------------------------------------------------------
+# a parameter documented as "an iterable" is traversed once
+# --------------------------------------------------------------------------------------
+_MATERIALISE = {"list", "tuple", "sorted", "set", "frozenset", "dict"}
+
+
+def max_traversals(fnode: ast.FunctionDef, param: str) -> int:
+    """Upper bound (2 = "more than once") of how often `param` is read on one path through
+    the function before it is re-bound to a materialised copy (p = list(p))."""
+    class Done(Exception):
+        pass
+
+    def uses(e) -> int:
+        if e is None:
+            return 0
+        # identity tests (`p is None`) and type inspections do not traverse
+        harmless = set()
+        for x in ast.walk(e):
+            if isinstance(x, ast.Compare) and all(isinstance(o, (ast.Is, ast.IsNot)) for o in x.ops):
+                harmless |= {id(y) for y in [x.left] + x.comparators}
+            if isinstance(x, ast.Call) and isinstance(x.func, ast.Name) \
+                    and x.func.id in ("isinstance", "type", "id", "callable"):
+                harmless |= {id(y) for y in x.args}
+        return sum(isinstance(x, ast.Name) and x.id == param and isinstance(x.ctx, ast.Load)
+                   and id(x) not in harmless for x in ast.walk(e))
+
+    def seq(stmts) -> tuple[int, bool]:
+        """(reads on the worst path, parameter materialised / path ended)"""
+        total = 0
+        for st in stmts:
+            k, stop = one(st)
+            total += k
+            if stop:
+                return total, True
+        return total, False
+
+    def one(st) -> tuple[int, bool]:
+        if isinstance(st, ast.Assign) and len(st.targets) == 1 \
+                and isinstance(st.targets[0], ast.Name) and st.targets[0].id == param:
+            v = st.value
+            if isinstance(v, ast.Call) and isinstance(v.func, ast.Name) \
+                    and v.func.id in _MATERIALISE:
+                return uses(v), True
+            return uses(v), True        # re-bound to something else: no longer the argument
+        if isinstance(st, ast.If):
+            a, sa = seq(st.body)
+            b, sb = seq(st.orelse)
+            return uses(st.test) + max(a, b), sa and sb
+        if isinstance(st, (ast.For, ast.While)):
+            head = uses(st.iter) if isinstance(st, ast.For) else uses(st.test)
+            b, _ = seq(st.body)
+            o, so = seq(st.orelse)
+            return head + (2 if b else 0) + o, so
+        if isinstance(st, ast.Try):
+            a, _ = seq(st.body)
+            h = max([seq(x.body)[0] for x in st.handlers] or [0])
+            o, _ = seq(st.orelse)
+            f, _ = seq(st.finalbody)
+            return a + h + o + f, False
+        if isinstance(st, ast.With):
+            w = sum(uses(i.context_expr) for i in st.items)
+            b, sb = seq(st.body)
+            return w + b, sb
+        if isinstance(st, (ast.Return, ast.Raise)):
+            return uses(st), True
+        if isinstance(st, (ast.FunctionDef, ast.ClassDef)):
+            return (2 if uses(st) else 0), False
+        return uses(st), False
+    return min(seq(fnode.body)[0], 2)
+
+
+def single_pass_obligation(ctx, rule: str, fi, param: str, what: str) -> None:
+    k = max_traversals(fi.node, param)
+    ctx.ob(rule, fi, f"{what}: the argument `{param}` may be any iterable (also a one-shot "
+                     f"generator), so it is traversed at most once before being materialised",
+           k <= 1, detail=f"`{param}` is read {'more than once' if k > 1 else str(k) + ' time(s)'} "
+                          f"on one path", stmt=f"{param} traversed more than once")
